@@ -15,6 +15,8 @@ import (
 	"github.com/dave/dst/decorator/resolver/gotypes"
 	"github.com/dave/dst/decorator/resolver/simple"
 
+	"golang.org/x/tools/go/packages"
+
 	"verif/core"
 	"verif/oracle"
 )
@@ -287,6 +289,18 @@ func c09Check(cs c09Case) (out core.Outcome, applicable bool, remote int) {
 	}
 	if err != nil {
 		return fail("gotypes-error", "decoration with the types-based resolver failed: %v", err)
+	}
+	// the constructor decorator.Load uses (NewDecoratorFromPackage) must annotate identically
+	{
+		dec2 := decorator.NewDecoratorFromPackage(&packages.Package{Fset: chk.Fset, PkgPath: c09Locals[cs.Local].Given, TypesInfo: chk.Info})
+		var df2 *dst.File
+		var err2 error
+		if p := guard(func() { df2, err2 = dec2.DecorateFile(af) }); p != "" || err2 != nil {
+			return fail("from-package-decorator-fails", "NewDecoratorFromPackage(...).DecorateFile: panic %q error %v", p, err2)
+		}
+		if a, b := identPaths(df), identPaths(df2); strings.Join(a, " ") != strings.Join(b, " ") {
+			return fail("from-package-decorator-differs", "NewDecoratorFromPackage annotates differently from NewDecoratorWithImports(gotypes.New(Uses)):\n%v\n%v", a, b)
+		}
 	}
 	// expected path per ast identifier
 	want := map[*ast.Ident]string{}
